@@ -258,9 +258,27 @@ def sort_of(t):
             return REG.vals[t[1]][0]
         if t[0] == "Opt":
             return sort_of(t[1])
+        if t[0] == "Tuple":
+            return tuple_sort(t)[0]
     if t in ("Any", "Fun", "Exc"):
         return RefS
     raise TypeError("no sort for type %r" % (t,))
+
+
+_TUPLE_SORTS = {}
+
+
+def tuple_sort(t):
+    """z3 datatype for a tuple stored in a container (list of tuples): (sort, constructor, accessors)"""
+    sorts = tuple(sort_of(x) for x in t[1])
+    key = tuple(str(x) for x in sorts)
+    r = _TUPLE_SORTS.get(key)
+    if r is None:
+        dt = z3.Datatype("Tup_" + "_".join(key))
+        dt.declare("mk", *[("f%d" % i, srt) for i, srt in enumerate(sorts)])
+        dt = dt.create()
+        r = _TUPLE_SORTS[key] = (dt, dt.constructor(0), [dt.accessor(0, i) for i in range(len(sorts))])
+    return r
 
 
 FALSE = z3.BoolVal(False)
